@@ -77,7 +77,14 @@ def generate(seed, tier):
     neg = r.choice(['none', 'none', 'none', 'ike_encr', 'ike_integ', 'ike_prf', 'ike_dh', 'child_encr', 'child_integ', 'child_dh_oneside', 'child_proto'])
     o = {'conf': {'profile': r.choice(['fast', 'mid']), 'entries': 2, 'single': r.random() < 0.35}, 'both_initiate': r.random() < 0.5,
          'packets': r.randint(2, 5), 'duration': r.choice([25, 45]), 'forced': 3, 'forced_kinds': ['expire_soft', 'jump_rekey'], 'faults': []}
+    if r.random() < 0.3:
+        # several protect entries with one side in common and suites of their own: whichever entry a negotiation (also a rekey, in either
+        # direction) belongs to, the suite comes out of THAT entry's policy
+        o['conf'].update({'entries': 3, 'share_side': 0.7, 'single': r.random() < 0.6})
+        o['forced'] = 5
+        o['forced_kinds'] = ['expire_soft']
     sc = workload.pair_scenario(seed, PROP, o)
+    sc['meta']['share_side'] = bool(o['conf'].get('share_side'))
     ca, cb = sc['nodes']['A']['conf']['to-b'], sc['nodes']['B']['conf']['to-a']
 
     def disjoint(key, universe, da, db):
